@@ -9,6 +9,7 @@ from .. import obs
 from ..common import pmap_proc, tlc_retry, write_ndjson, sh, SPEC
 
 LEVEL = "model_checking"
+CMODE = ["trail", "own", True]     # comment layout of the third rendering: behind every line / before every line / seeded
 
 
 def render(prog, rng, lang="CPP", comments=False):
@@ -74,12 +75,14 @@ def render(prog, rng, lang="CPP", comments=False):
         else:
             t = "/* ? */"
         ind = rng.choice(["", " ", "  ", "\t", "    ", "\t\t", "   \t", "        ", "      "])
-        if comments:
-            x = rng.random()
-            if x < 0.12:
+        if comments == "trail":
+            t += rng.choice([" ", "  ", "\t", "     "]) + ["// c%d", "/* c%d */"][n % 2] % n
+        elif comments == "own":
+            out.append(rng.choice(["", "  ", "\t\t", "          "]) + ["// own line %d", "/* own line %d */"][n % 2] % n)
+        elif comments:
+            if rng.random() < 0.12:
                 out.append(rng.choice(["", "  ", "\t\t", "          "]) + rng.choice(["// own line %d", "/* own line %d */"]) % n)
-            x = rng.random()
-            if x < 0.35 and not t.endswith("\\"):
+            if rng.random() < 0.35:
                 t += rng.choice([" ", "  ", "\t", "     "]) + rng.choice(["// c%d", "/* c%d */"]) % n
         out.append(ind + t)
         last = k
@@ -115,7 +118,7 @@ def _job(a):
     for r in range(3):
         rng = random.Random(seed * 2 + r)
         src = os.path.join(tmp, "i%d_%d.cpp" % (i, r))
-        obs.write(src, render(prog, rng, comments=(r == 2)))
+        obs.write(src, render(prog, rng, comments=CMODE[seed % 3] if r == 2 else False))
         rc_, so, se = sh([unc, "-c", cfg, "-q", "-l", "CPP", "-f", src], cwd=tmp, timeout=20)
         os.unlink(src)
         if rc_ != 0:
@@ -230,7 +233,7 @@ def replay(path):
         obs.write(cfg, r["cfg_text"])
         for k in range(3):
             src = os.path.join(d, "r%d.cpp" % k)
-            obs.write(src, render(r["prog"], random.Random(r["seed"] * 2 + k), comments=(k == 2)))
+            obs.write(src, render(r["prog"], random.Random(r["seed"] * 2 + k), comments=CMODE[r["seed"] % 3] if k == 2 else False))
             rc, so, se = sh([unc, "-c", cfg, "-q", "-l", "CPP", "-f", src])
             print("--- rendering %d (rc=%d), columns %s" % (k, rc, columns(obs.decode(so), r["tab"])))
             print(so.decode("latin-1"))
